@@ -59,6 +59,21 @@ def trimmed(config: _T, trim: List[config_lib.Buildable]) -> _T:
   )
 
 
+def _equal_including_types(a: Any, b: Any) -> bool:
+  """Returns `a == b`, but also requires equal types, also within containers."""
+  if type(a) is not type(b):
+    return False
+  if isinstance(a, (list, tuple)):
+    return len(a) == len(b) and all(
+        _equal_including_types(x, y) for x, y in zip(a, b)
+    )
+  if isinstance(a, dict):
+    return a.keys() == b.keys() and all(
+        _equal_including_types(v, b[k]) for k, v in a.items()
+    )
+  return a == b
+
+
 def with_defaults_trimmed(config: _T, remove_deep_defaults: bool = False) -> _T:
   """Trims arguments that match their default values.
 
@@ -155,8 +170,7 @@ def with_defaults_trimmed(config: _T, remove_deep_defaults: bool = False) -> _T:
         if (
             param.kind != inspect.Parameter.VAR_KEYWORD
             # (True == 1 == 1.0, but they are not the same argument value.)
-            and type(param_default) is type(attr_value)
-            and param_default == attr_value
+            and _equal_including_types(param_default, attr_value)
             # All paths must flow through both the parent config (`value`) and
             # the specific attribute which is being defaulted, in order for us
             # to safely remove it.
